@@ -330,6 +330,8 @@ def return_alternatives(body, program=None, resolve=True):
         for (t2, c2, fl) in alts:
             if resolve and program is not None and _then_call(t2):
                 final.extend((t3, c3, True) for (t3, c3) in _split_then(program, body, T.strip(t2), c2, b))
+            elif resolve and program is not None and _option_map_call(program, t2):
+                final.extend((t3, c3, True) for (t3, c3) in _split_option_map(program, body, T.strip(t2), c2, b))
             else:
                 final.append((t2, c2, fl))
         for (t2, c2, fl) in final:
@@ -346,7 +348,7 @@ def _path_alternatives(body, program, S, b, j):
     trails = [tr for tr in trails if tr[-1] == b]
     if trunc or not trails or len(trails) > 400:
         return None
-    deciding = {a for (a, s_) in C.transitive_controls(body, b)}
+    deciding = PA.deciding_blocks(body, S, b, j)
     blk = body.blocks[b]
     seen = []
     for tr in trails:
@@ -361,6 +363,32 @@ def _path_alternatives(body, program, S, b, j):
         if key not in seen:
             seen.append(key)
     return [(t, list(cs)) for (t, cs) in seen]
+
+
+def _option_map_call(program, t):
+    t = T.strip(t)
+    if not (t[0] == "call" and t[1].rsplit("::", 1)[-1] == "map" and "Option" in t[1] and len(t[2]) == 2):
+        return False
+    v = T.strip(t[2][1])
+    return v[0] == "agg" and v[1] == "closure" and v[2] in program.bodies
+
+
+def _split_option_map(program, body, t, conds, blk):
+    """`x.map(|v| e)` is `Some(e)` when x is Some and None when it is None; `a.zip(b)` is Some when both are."""
+    cb = program.bodies[T.strip(t[2][1])[2]]
+    rets = return_sites(cb, program, resolve=False)
+    if len(rets) != 1:
+        return [(t, conds)]
+    v = T.expand_upvars(program, cb, rets[0][2], depth=2)
+    recv = T.strip(t[2][0])
+    parts = [recv]
+    if recv[0] == "call" and recv[1].rsplit("::", 1)[-1] == "zip" and "Option" in recv[1] and len(recv[2]) == 2:
+        parts = [T.strip(recv[2][0]), T.strip(recv[2][1])]
+    yes = list(conds) + [("variant", p, "Some", True, blk) for p in parts]
+    out = [(("agg", "adt", "core::option::Option", "Some", (v,)), yes)]
+    for p in parts:
+        out.append((("agg", "adt", "core::option::Option", "None", ()), list(conds) + [("variant", p, "None", True, blk)]))
+    return out
 
 
 def _split_then(program, body, t, conds, blk):
